@@ -3,7 +3,7 @@
    enc_* are the wire forms (proved in C03 to be what the writers emit); `tail` is whatever
    follows the section in the stream; both sides return Ok with the same rest of the stream,
    i.e. the same status and the same end position. *)
-From Sbdf Require Import ImpCall Gen.Prog ImpFacts ImpFacts7 ImpFactsFrame.
+From Sbdf Require Import ImpCall Gen.Prog ImpBase ImpFactsSkip.
 From Coq Require Import List.
 From Sbdf Require Import Slice PrimFacts ObjFacts VaFacts SliceFacts.
 
